@@ -56,6 +56,8 @@ var (
 	reStemStack  = regexp.MustCompile(`^regstackN?_?N?[a-zA-Z_]*?(SM|sender|receiver|empty|full).*$`)
 	reStemUnit   = regexp.MustCompile(`^([A-Za-z][A-Za-z0-9]*_N)_.+$`)
 	reStemCTX    = regexp.MustCompile(`^CTX[A-Z]+$`)
+	reStemVN     = regexp.MustCompile(`^(vn_state|FETCH|WAIT|EXECUTE)$`)
+	reStemChan   = regexp.MustCompile(`^(ch_num|count_seq_ch|op_channel|reg_num|wrd_ch|wwr_ch|reset_flag_ch|stat_op_ch)$`)
 )
 
 // stem merges the many identifiers of one generated block (all ports of one instance, all states of one
@@ -75,6 +77,12 @@ func stem(n string) string {
 	}
 	if reStemCTX.MatchString(n) {
 		return "CTX*"
+	}
+	if reStemVN.MatchString(n) {
+		return "vn_state*" // the von Neumann fetch state machine: vn_state and its FETCH/WAIT/EXECUTE states
+	}
+	if reStemChan.MatchString(n) {
+		return "channel-regs*" // the bookkeeping registers the four channel opcodes declare for each other
 	}
 	return n
 }
@@ -122,7 +130,8 @@ type attribution struct {
 	baseU    set
 	topBase  set                       // keys seen in bondmachine.v / arch_N.v of machines without shared objects
 	pairOnly map[string]map[[2]string]bool // key -> pairs showing it although neither member alone does
-	hubs     map[string]set            // key -> opcodes of degree >= 2 in that pair graph
+	cover    map[string]map[[2]string]string // key -> pair -> the member blamed for it ("" = both)
+	pairFamily map[string]string // key -> dynamic family when every pair showing the key lies inside one family
 }
 
 func ctxOf(j Job, pi int) string {
@@ -186,7 +195,7 @@ func allKinds(j Job) []string {
 
 func attribute(jobs []Job, res []Result) *attribution {
 	a := &attribution{jobs: jobs, res: res, single: map[string]map[string]set{}, singleU: map[string]set{}, soBase: map[string]map[string]set{},
-		soBaseU: map[string]set{}, baseU: set{}, topBase: set{}, pairOnly: map[string]map[[2]string]bool{}, hubs: map[string]set{}}
+		soBaseU: map[string]set{}, baseU: set{}, topBase: set{}, pairOnly: map[string]map[[2]string]bool{}, cover: map[string]map[[2]string]string{}, pairFamily: map[string]string{}}
 	union := func(m map[string]set, k string, s set) {
 		if m[k] == nil {
 			m[k] = set{}
@@ -252,16 +261,54 @@ func attribute(jobs []Job, res []Result) *attribution {
 			a.pairOnly[k][[2]string{ops[0], ops[1]}] = true
 		}
 	}
+	// per key: a greedy minimum vertex cover of the pair graph (largest degree first, ties by name). Every pair is
+	// assigned to the cover member that removed it: the opcode that collides with (almost) every partner is the
+	// cause, its partners are not.
 	for k, pairs := range a.pairOnly {
-		deg := map[string]int{}
+		fam, same := "", true
 		for p := range pairs {
-			deg[p[0]]++
-			deg[p[1]]++
+			for _, op := range p {
+				f := familyOf(op)
+				if f == "" || (fam != "" && f != fam) {
+					same = false
+				}
+				fam = f
+			}
 		}
-		a.hubs[k] = set{}
-		for op, d := range deg {
-			if d >= 2 {
-				a.hubs[k][op] = true
+		if same {
+			a.pairFamily[k] = fam
+		}
+		left := map[[2]string]bool{}
+		for p := range pairs {
+			left[p] = true
+		}
+		a.cover[k] = map[[2]string]string{}
+		for len(left) > 0 {
+			deg := map[string]int{}
+			for p := range left {
+				deg[p[0]]++
+				deg[p[1]]++
+			}
+			var ops []string
+			for op := range deg {
+				ops = append(ops, op)
+			}
+			sort.Slice(ops, func(x, y int) bool {
+				if deg[ops[x]] != deg[ops[y]] {
+					return deg[ops[x]] > deg[ops[y]]
+				}
+				return ops[x] < ops[y]
+			})
+			pick := ops[0]
+			for p := range left {
+				if p[0] == pick || p[1] == pick {
+					if deg[pick] == 1 {
+						a.cover[k][p] = "" // an isolated pair: named after both members
+					} else {
+						a.cover[k][p] = pick
+					}
+					delete(left, p)
+				}
 			}
 		}
 	}
@@ -411,16 +458,15 @@ func (a *attribution) components(ji, di int) []string {
 			if !has[p[0]] || !has[p[1]] {
 				continue
 			}
-			h0, h1 := a.hubs[k][p[0]], a.hubs[k][p[1]]
 			var cs []string
-			switch {
-			case h0 && !h1:
-				cs = []string{opComponent(p[0]) + "+" + diagDetail(d) + "-" + role}
-			case h1 && !h0:
-				cs = []string{opComponent(p[1]) + "+" + diagDetail(d) + "-" + role}
-			case h0 && h1:
-				cs = []string{opComponent(p[0]) + "+" + diagDetail(d) + "-" + role, opComponent(p[1]) + "+" + diagDetail(d) + "-" + role}
-			default:
+			if d.Class == "undefined-module" {
+				// two opcodes return the same key from Op_instruction_verilog_extra_modules: conproc keeps one module
+				cs = []string{"extra-module-dedup"}
+			} else if fam := a.pairFamily[k]; fam != "" {
+				cs = []string{"dyn-family:" + fam}
+			} else if h := a.cover[k][p]; h != "" {
+				cs = []string{opComponent(h) + "+" + diagDetail(d) + "-" + role}
+			} else {
 				x, y := opComponent(p[0]), opComponent(p[1])
 				if y < x {
 					x, y = y, x
@@ -471,7 +517,11 @@ func (a *attribution) sigs(ji, di int) []asig {
 	}
 	var out []asig
 	for _, c := range a.components(ji, di) {
-		out = append(out, asig{sig: "C18|" + c + "|" + class + "|" + detail, cause: c})
+		dt := detail
+		if c == "extra-module-dedup" {
+			dt = "opmodule_N" // whichever opcode's module lost the key clash
+		}
+		out = append(out, asig{sig: "C18|" + c + "|" + class + "|" + dt, cause: c})
 	}
 	return out
 }
